@@ -12,6 +12,8 @@ request  (one JSON object per line):
     oracle of the `set` abstraction); on side "battery" the model chooses by the implemented rule;
     `["snapshot"]` = deserialize(serialize(state)) into a freshly constructed battery.
 response: {"res": [value | {"e": "IndexError"}, ...], "state": value, "maxsize": n}
+also:     {"cls":"members","enum":[m,...]} with m = int | {"a":[type name, repr]} | {"t":[m,...]} | {"f":[m,...]}
+          -> {"idx": i}: which member of the enumeration `ReplSet.pop` removes (PSO.Py.PySet.chooseIdx, D85)
 -/
 namespace Driver.Batteries
 open Lean PSO.Py PSO.Batteries
@@ -223,9 +225,32 @@ def stContents : St → Val × Nat
   | .bPQ s => (ReplPriorityQueue.contents s, s.maxsize) | .rPQ q => (.list q.data, q.maxsize)
   | .heap h => (.list h, 0)
 
+/-- set member: number | {"a":[type name, repr]} | {"t":[members]} | {"f":[members in iteration order]} -/
+partial def getMember (j : Json) : Except String PySet.Member :=
+  match j with
+  | .num _ => do pure (.int (← j.getInt?))
+  | .obj _ =>
+    match j.getObjVal? "a", j.getObjVal? "t", j.getObjVal? "f" with
+    | .ok a, _, _ => do
+      let p ← a.getArr?
+      if p.size ≠ 2 then throw "atom: [type, repr] expected"
+      pure (.atom (PySet.codes (← p[0]!.getStr?)) (PySet.codes (← p[1]!.getStr?)))
+    | _, .ok t, _ => do pure (.tup (← (← t.getArr?).toList.mapM getMember))
+    | _, _, .ok f => do pure (.fset (← (← f.getArr?).toList.mapM getMember))
+    | _, _, _ => throw "bad member"
+  | _ => throw "bad member"
+
+/-- {"cls":"members","enum":[member, ...]} -> {"idx": position of the member ReplSet.pop removes} -/
+def handleMembers (j : Json) : Except String String := do
+  let ms ← (← (← j.getObjVal? "enum").getArr?).toList.mapM getMember
+  match PySet.chooseIdx ms with
+  | some i => pure (Json.mkObj [("idx", Json.num (JsonNumber.fromNat i))]).compress
+  | .none => pure (Json.mkObj [("idx", Json.null)]).compress
+
 def handle (line : String) : Except String String := do
   let j ← Json.parse line
   let cls ← (← j.getObjVal? "cls").getStr?
+  if cls = "members" then return (← handleMembers j)
   let side ← (← j.getObjVal? "side").getStr?
   let maxsize : Option Nat ← match j.getObjVal? "maxsize" with
     | .ok .null => pure .none
